@@ -126,6 +126,8 @@ var Texts = map[string]string{
   bogus-statement here;
 }`,
 	"x-unknown-top": `foo bar;`,
+	// offered through Modules.Read as a file whose directory also holds bb.yang: the failed read must not make that directory a search path
+	"x-file-syntax": `module xf { namespace "urn:xf"; prefix xf; container c {`,
 	"x-second-module-rejected": `module ok4 { namespace "urn:ok4"; prefix ok4; container fine; }
 module bad4 { namespace "urn:bad4"; prefix bad4; bogus-statement here; }`,
 }
@@ -280,7 +282,18 @@ func replay(c *cas, skip map[string]bool) (sig, detail string) {
 			if skip[o.Text] {
 				continue
 			}
-			err := ms.Parse(Texts[o.Text], o.Text+".yang")
+			var err error
+			if o.Text == "x-file-syntax" {
+				dir, derr := os.MkdirTemp(".", "files")
+				if derr != nil {
+					return "infra", derr.Error()
+				}
+				os.WriteFile(dir+"/xf.yang", []byte(Texts[o.Text]), 0o644)
+				os.WriteFile(dir+"/bb.yang", []byte(Texts["bb-r1"]), 0o644)
+				err = ms.Read(dir + "/xf.yang")
+			} else {
+				err = ms.Parse(Texts[o.Text], o.Text+".yang")
+			}
 			if (err == nil) != o.Ok {
 				if o.Ok {
 					return "good-text-rejected", fmt.Sprintf("step %d load %s: the specification accepts, the library says %v", i+1, o.Text, err)
